@@ -337,7 +337,13 @@ func init() {
 					}
 					sh = append(sh, vShard{Name: fmt.Sprintf("xf/%g:%d/%s", x.Off, x.Exp, strings.ReplaceAll(cfg.String(), " ", ",")), Run: func(c *vCtx) {
 						defer vXFSet(x, cfg.Metric)()
-						vKindSweep(c, cfg, 24, vC13Hook)
+						if cfg.NList >= 16 {
+							// the hook tries every p in 1..nlist: smaller instances
+							vKindSweep(c, cfg, 10, vC13Hook)
+							vKindLarge(c, cfg, []int{70}, vC13Hook)
+							return
+						}
+						vKindSweep(c, cfg, 16, vC13Hook)
 						vKindLarge(c, cfg, []int{70, 200}, vC13Hook)
 					}})
 				}
